@@ -634,7 +634,7 @@ func (s *SwapService) OnSwapInRequestReceived(swapId *SwapId, peerId string, mes
 
 	swap := newSwapInReceiverFSM(swapId, s.swapServices, peerId)
 
-	err = s.lockSwap(swap.SwapId.String(), message.Scid, swap)
+	err = s.lockRequestedSwap(swap.SwapId.String(), message.Scid, swap)
 	if err != nil {
 		// If we already have an active swap on the same channel or can not lock
 		// in a new swap we want to tell it our peer.
@@ -709,7 +709,7 @@ func (s *SwapService) OnSwapOutRequestReceived(swapId *SwapId, peerId string, me
 	}
 
 	swap := newSwapOutReceiverFSM(swapId, s.swapServices, peerId)
-	err = s.lockSwap(swap.SwapId.String(), message.Scid, swap)
+	err = s.lockRequestedSwap(swap.SwapId.String(), message.Scid, swap)
 	if err != nil {
 		// If we already have an active swap on the same channel or can not lock
 		// in a new swap we want to tell it our peer.
@@ -972,9 +972,28 @@ func (s *SwapService) lockSwap(swapId, channelId string, fsm *SwapStateMachine) 
 		}
 	}
 
+	// A swap id can only be locked in once.
+	if _, ok := s.activeSwaps[swapId]; ok {
+		return fmt.Errorf("swap id %s is already in use", swapId)
+	}
+
 	// Add active swap
 	s.activeSwaps[swapId] = fsm
 	return nil
+}
+
+// lockRequestedSwap locks in a swap that was requested by a peer. The peer
+// chooses the swap id, so an id that we already know (active, finished or not
+// yet recovered) is refused, as the new swap would replace the stored one.
+func (s *SwapService) lockRequestedSwap(swapId, channelId string, fsm *SwapStateMachine) error {
+	_, err := s.swapServices.swapStore.GetData(swapId)
+	if err == nil {
+		return fmt.Errorf("swap id %s is already in use", swapId)
+	}
+	if !errors.Is(err, ErrDataNotAvailable) {
+		return err
+	}
+	return s.lockSwap(swapId, channelId, fsm)
 }
 
 type ActiveSwapError struct {
